@@ -119,7 +119,7 @@ def check(case):
 
 PARTS = [
     Part("ideal", lambda tier: strategy(("ideal-iso", "ideal-noniso")), check, {"quick": 2400, "thorough": 80000},
-         floor={"quick": 300, "thorough": 10000}),
+         floor={"quick": 200, "thorough": 6000}),
     Part("non-ideal", lambda tier: strategy(("nonideal-iso", "nonideal-noniso")), check, {"quick": 160, "thorough": 4000},
          floor={"quick": 20, "thorough": 500}, shrink={"quick": False, "thorough": True}),
 ]
